@@ -292,6 +292,29 @@ pub fn run(args: &[String]) {
                 }
             }
         }
+        "broken-probe" => {
+            // rbv e2e broken-probe --req "<request>": does the shaper insert a dotted circle for this text (a BROKEN cluster in
+            // the syllable machine's terms)?  Shaped on a generated font without layout tables that maps every character of
+            // the text plus U+25CC, with dotted-circle insertion allowed; prints `broken-probe inserted=<n>`
+            let mut req = parse_req(arg_str(args, "--req").unwrap_or(""));
+            let mut cps: Vec<u32> = req.text.iter().map(|x| x.0).collect();
+            cps.push(0x25CC);
+            cps.sort();
+            cps.dedup();
+            let mut spec = crate::fontgen::FontSpec::basic(cps.len() as u16 + 1);
+            spec.cmap = cps.iter().enumerate().map(|(i, c)| (*c, i as u16 + 1)).collect();
+            let dc = cps.iter().position(|c| *c == 0x25CC).unwrap() as u32 + 1;
+            let data = crate::fontgen::build(&spec);
+            req.flags &= !0x10;
+            req.features = vec![];
+            req.pre.clear();
+            req.post.clear();
+            let before = req.text.iter().filter(|x| x.0 == 0x25CC).count();
+            match shape_catch(&data, &req) {
+                Ok(o) => println!("broken-probe inserted={}", o.iter().filter(|g| g.gid == dc).count() as i64 - before as i64),
+                Err(e) => println!("broken-probe panic {}", e),
+            }
+        }
         "one" => {
             // replay: rbv e2e one <prop> --font PATH --req "<request>"
             let prop = args.get(1).map(|s| s.as_str()).unwrap_or("");
